@@ -1,7 +1,7 @@
 (* C07 — each executed trade books exactly its outlay and its fee, once, on the security's own
    parent, never as a flow.  Statements only; proofs in Proofs/TradeProofs.v. *)
 From Coq Require Import Reals.
-Require Import BT.Num BT.Base BT.Records BT.Engine BT.Proofs.SecInv BT.Proofs.TradeProofs.
+Require Import BT.Num BT.Base BT.Records BT.Engine BT.Proofs.SecInv BT.Proofs.TradeProofs BT.Proofs.LedgerProofs.
 Local Open Scope R_scope.
 
 Theorem C07_trade_booking : forall pnow comm q upd price (s s' : secR) oa,
@@ -24,3 +24,33 @@ Theorem C07_parent_books_once_not_as_flow : forall (A : Type) (g : strat RNumI A
 Proof. exact apply_adj_booking. Qed.
 Print Assumptions C07_parent_books_once_not_as_flow.
 
+
+(* the ledger of a strategy whose children are securities, for one StrategyBase.allocate(amount) — any amount, any
+   commission function, spreads, whole or fractional units, the sizing search included: the amount is received as a flow
+   and the change in cash is the amount minus the outlays the securities recorded (row + accumulator) minus the fees the
+   node recorded; the parent is asked for exactly -amount, not as a flow *)
+Theorem C07_allocate_ledger : forall (A : Type) pnow comm amount upd (g g' : strat RNumI A) kids kids' lz pp lz' pp' oa,
+  let i := row_of (g_now g) in
+  all_secs A i kids ->
+  node_allocate pnow comm amount upd (NStrat g kids lz pp) = Ok (NStrat g' kids' lz' pp', oa) ->
+  g_capital g' - g_capital g = amount - (outs A i kids' - outs A i kids) - (g_last_fee g' - g_last_fee g) /\
+  g_net_flows g' = g_net_flows g + amount /\
+  oa = Some (mkAdj (N:=RNumI) (- amount) 0 upd) /\ all_secs A i kids'.
+Proof. exact flat_allocate_ledger. Qed.
+Print Assumptions C07_allocate_ledger.
+
+(* ... and for one StrategyBase.transact(q): nothing is received, nothing is a flow *)
+Theorem C07_transact_ledger : forall (A : Type) pnow comm q upd (g g' : strat RNumI A) kids kids' lz pp lz' pp' oa,
+  let i := row_of (g_now g) in
+  all_secs A i kids ->
+  node_transact pnow comm q upd (NStrat g kids lz pp) = Ok (NStrat g' kids' lz' pp', oa) ->
+  g_capital g' - g_capital g = - (outs A i kids' - outs A i kids) - (g_last_fee g' - g_last_fee g) /\
+  g_net_flows g' = g_net_flows g /\ oa = None /\ all_secs A i kids'.
+Proof. exact flat_transact_ledger. Qed.
+Print Assumptions C07_transact_ledger.
+
+(* an update moves the outlay accumulator into the row of the date without changing their sum *)
+Theorem C07_update_keeps_recorded_outlay : forall date i (s s' : secR),
+  sec_update date i s = Ok s' -> (i < length (h_outlays s))%nat -> out_total i s' = out_total i s.
+Proof. exact sec_update_out_total. Qed.
+Print Assumptions C07_update_keeps_recorded_outlay.
